@@ -16,9 +16,9 @@ Proof.
 Qed.
 
 Lemma with_refresh_active n now cfg c g : g_active (with_refresh n now cfg c g) = g_active g.
-Proof. unfold with_refresh. destruct (should_issue_refresh cfg c (g_type g)); reflexivity. Qed.
+Proof. unfold with_refresh. destruct (should_issue_refresh cfg c (g_type g) (g_active g)); reflexivity. Qed.
 Lemma with_refresh_granted n now cfg c g : g_granted (with_refresh n now cfg c g) = g_granted g.
-Proof. unfold with_refresh. destruct (should_issue_refresh cfg c (g_type g)); reflexivity. Qed.
+Proof. unfold with_refresh. destruct (should_issue_refresh cfg c (g_type g) (g_active g)); reflexivity. Qed.
 
 Lemma within_choice granted req :
   negb (contains_all_scopes granted req) = false ->
